@@ -34,6 +34,18 @@ def main(argv):
 
     mod = load_check(prop)
     mon = Monitor(prop, tier, seed, shard, nshards)
+    reach = None
+    anchors = mod.SPEC.get("anchors") or []
+    if anchors:
+        from .taps import LineReach, resolve
+        fns = {}
+        for a in anchors:
+            try:
+                fns[a] = resolve(a)
+            except Exception as e:      # noqa
+                mon.notes.append({"anchor_unresolved": a, "error": repr(e)})
+        reach = LineReach(fns)
+        reach.install()
     budget_s = float(os.environ.get("FVMON_SHARD_BUDGET_S", "0") or 0)
     t0 = time.time()
 
@@ -76,6 +88,10 @@ def main(argv):
         if hasattr(mod, "finish"):
             mod.finish(mon)
     rep = mon.report()
+    if reach is not None:
+        rep["anchor_reach"] = {k: sorted(v) for k, v in reach.hit.items()}
+        rep["anchors_unresolved"] = [n["anchor_unresolved"] for n in mon.notes if "anchor_unresolved" in n]
+        reach.uninstall()
     rep["known_fired"] = known_fired
     rep["wall_s"] = time.time() - t0
     with open(outfile, "w") as fh:
